@@ -29,10 +29,13 @@ type C19Job struct {
 }
 
 type C19Case struct {
-	Items   []GoCase     `json:"items"`
-	Streams [][]model.Ev `json:"streams,omitempty"`
-	Jobs    []C19Job     `json:"jobs"` // one per goroutine
-	Repeat  int          `json:"repeat"`
+	Items []GoCase `json:"items"`
+	// FoldItems: values of fold-side types (custom folders, inlined interfaces,
+	// named containers) folded into encoders by "fold:<format>" jobs
+	FoldItems []GoCase     `json:"fold_items,omitempty"`
+	Streams   [][]model.Ev `json:"streams,omitempty"`
+	Jobs      []C19Job     `json:"jobs"` // one per goroutine
+	Repeat    int          `json:"repeat"`
 }
 
 type c19Result struct {
@@ -96,6 +99,23 @@ func c19Run(c *C19Case, j C19Job, types []reflect.Type, vals []reflect.Value, in
 			return c19Result{out: "malformed: " + err.Error(), raw: data}
 		}
 		return c19Result{v: v, out: "ok", raw: data}
+	}
+	if len(j.Route) > 5 && j.Route[:5] == "fold:" {
+		cd := codecs[j.Route[5:]]
+		_, rv, err := c.FoldItems[j.Item].build()
+		if err != nil {
+			return c19Result{out: "build: " + err.Error()}
+		}
+		var buf bytes.Buffer
+		fo := foldTo(rv, cd.NewVisitor(&buf, EncOpts{IgnoreInvalidFloat: true}))
+		if fo.Panicked() || fo.Err != nil {
+			return c19Result{out: fo.String()}
+		}
+		v, derr := refDecodeOne(cd.Name, buf.Bytes())
+		if derr != nil {
+			return c19Result{out: "invalid document: " + derr.Error(), raw: buf.Bytes()}
+		}
+		return c19Result{v: v, out: "ok", raw: buf.Bytes()}
 	}
 	var target reflect.Value
 	var stage string
@@ -270,12 +290,21 @@ func drawC19(t *rapid.T) any {
 		evs, _ := gen.Stream(t, gen.StreamCfg{Ext: true, Refs: true, Budget: 30, Finite: true})
 		c.Streams = append(c.Streams, evs)
 	}
+	nf := rapid.IntRange(0, 2).Draw(t, "nfold")
+	for i := 0; i < nf; i++ {
+		g := drawGoCase(t, gomodel.TypeCfg{Tags: true, Pool: true, FoldOnly: true, Arrays: true, TopStruct: true}, gomodel.ValCfg{Budget: 25, ValidUTF8: true, Finite: true, NoBigUint: true})
+		c.FoldItems = append(c.FoldItems, *g)
+	}
 	maxG := 8
 	if gen.TierThorough() {
 		maxG = 16
 	}
 	G := rapid.IntRange(2, maxG).Draw(t, "G")
 	for g := 0; g < G; g++ {
+		if nf > 0 && rapid.IntRange(0, 3).Draw(t, "foldjob") == 0 {
+			c.Jobs = append(c.Jobs, C19Job{Item: rapid.IntRange(0, nf-1).Draw(t, "fitem"), Route: "fold:" + rapid.SampledFrom(formatNames).Draw(t, "ffmt")})
+			continue
+		}
 		if rapid.IntRange(0, 3).Draw(t, "codecjob") == 3 {
 			c.Jobs = append(c.Jobs, C19Job{Item: rapid.IntRange(0, ns-1).Draw(t, "sitem"), Route: "codec:" + rapid.SampledFrom(formatNames).Draw(t, "cfmt")})
 		} else {
@@ -288,7 +317,7 @@ func drawC19(t *rapid.T) any {
 func init() {
 	register(&Property{
 		ID:            "C19",
-		Rule:          "programs of G goroutines (quick: 2..8, thorough: 2..16) released by a barrier, each running its own pipeline — Fold -> Unfold directly or through the json/ubjson/cborl encoder and parser, or encoder -> parser over a shared event stream, where all goroutines parse the SAME byte slice (encoded once beforehand; entry points Parse, NewBytesDecoder, ParseReader, Parser.Parse by goroutine index; the bytes must be unchanged afterwards) — 1..3 times on its OWN instances (half of the goroutines keep one unfolder, created without target and recycled with Reset + SetTarget before every document) over SHARED input values and SHARED freshly generated reflect.StructOf types (first use under contention) plus pool types incl. the self-referential ones; half of the programs take a FRESH member of a family of 144 self-referential generic types and let the goroutines use R, *R, []R and struct{P *R; S []R} at the same time (first use of a recursive type under contention); a third of the others use a type with a custom UnfoldState (Expander, stateful or processing user unfolder) as slice element, map value and struct field in all goroutines; the binary is built with -race (GORACE=halt_on_error): any race report, 'concurrent map' fatal error or crash is a violation; differential: every goroutine's outcome and value equal those of the same job run alone afterwards. Schedules are sampled by the Go scheduler (GOMAXPROCS 4, varied in the thorough tier), not enumerated. non-trivial = at least two goroutines share an item (type or stream) and route; distinct by case hash",
+		Rule:          "programs of G goroutines (quick: 2..8, thorough: 2..16) released by a barrier, each running its own pipeline — Fold of a fold-side value (custom folders, inlined interfaces, named containers) into an encoder, Fold -> Unfold directly or through the json/ubjson/cborl encoder and parser, or encoder -> parser over a shared event stream, where all goroutines parse the SAME byte slice (encoded once beforehand; entry points Parse, NewBytesDecoder, ParseReader, Parser.Parse by goroutine index; the bytes must be unchanged afterwards) — 1..3 times on its OWN instances (half of the goroutines keep one unfolder, created without target and recycled with Reset + SetTarget before every document) over SHARED input values and SHARED freshly generated reflect.StructOf types (first use under contention) plus pool types incl. the self-referential ones; half of the programs take a FRESH member of a family of 144 self-referential generic types and let the goroutines use R, *R, []R and struct{P *R; S []R} at the same time (first use of a recursive type under contention); a third of the others use a type with a custom UnfoldState (Expander, stateful or processing user unfolder) as slice element, map value and struct field in all goroutines; the binary is built with -race (GORACE=halt_on_error): any race report, 'concurrent map' fatal error or crash is a violation; differential: every goroutine's outcome and value equal those of the same job run alone afterwards. Schedules are sampled by the Go scheduler (GOMAXPROCS 4, varied in the thorough tier), not enumerated. non-trivial = at least two goroutines share an item (type or stream) and route; distinct by case hash",
 		New:           func() any { return &C19Case{} },
 		Draw:          drawC19,
 		Check:         checkC19,
